@@ -255,6 +255,27 @@ class Executor(ExprMixin, StmtMixin, CallMixin, ContractMixin):
                 else:
                     self.frame.append((ref.t, field))
             self.frame_carries = getattr(c, 'frame_carries', None)
+            if not is_init and not c.modifies and 'self' in st.env and isinstance(st.env['self'], SV) \
+                    and isinstance(st.env['self'].ty, TRef):
+                # a method whose contract lists NO writable location: an attribute of `self` that the
+                # class model does not even declare (a cache, a counter, ...) being assigned is a write
+                # outside the frame whatever else the body does (syntactic; reachability not examined)
+                cls_ = st.env['self'].ty.cls
+                for n_ in ast.walk(fs.node):
+                    tg_ = (n_.targets if isinstance(n_, ast.Assign) else [n_.target] if isinstance(n_, (ast.AugAssign, ast.AnnAssign))
+                           else n_.targets if isinstance(n_, ast.Delete) else [])
+                    flat_ = []
+                    for t_ in tg_:
+                        flat_.extend(t_.elts if isinstance(t_, (ast.Tuple, ast.List)) else [t_])
+                    for t_ in flat_:
+                        while isinstance(t_, ast.Subscript):
+                            t_ = t_.value
+                        if (isinstance(t_, ast.Attribute) and isinstance(t_.value, ast.Name) and t_.value.id == 'self'
+                                and self.classes.field(cls_, t_.attr)[0] is None
+                                and not any(self.classes.field(q_, t_.attr)[0] for q_ in self.classes.subclasses(cls_))):
+                            self.oblige(st.copy(), z3.BoolVal(False), 'frame', 'new-attribute:' + t_.attr, node=n_,
+                                        info={'claim': 'the contract of %s lists no writable location, yet the body assigns '
+                                                       'self.%s (an attribute the class model does not declare)' % (qualname, t_.attr)})
             if is_init:
                 st.init_assigned = set()
                 self.frame.append((st.env['self'].t, None))
